@@ -4,4 +4,4 @@
 Require Extraction.
 Require Import ExtrOcamlBasic.
 From DesVerif Require Import CQueue.Model CQueue.Spec.
-Extraction "cq.ml" CQueue.Model.run CQueue.Spec.sp_run.
+Extraction "cq.ml" CQueue.Model.run.
